@@ -60,7 +60,7 @@ ASSUMPTIONS = [
     'driver.declare_coloring on a single explicit component: total sparsity == declared partial '
     'sparsity',
 ]
-MIN_NONTRIVIAL = {'quick': 40000, 'thorough': 400000}
+MIN_NONTRIVIAL = {'quick': 40000, 'thorough': 550000}
 CHUNK = 1
 CAP_S = {'thorough': int(os.environ.get('OMV_CAP_S', '1500'))}   # wall-clock cap
 
